@@ -7,5 +7,5 @@ for p in C01 C02 C03 C04 C05 C06 C07 C08 C09 C10 C11 C12 C13 C14 C15 C16 C17 C18
   start=$(date +%s)
   out=$(./check $p --tier $tier --seed $seed 2>&1); rc=$?
   echo "$p rc=$rc $(echo "$out" | grep -c '^VIOLATION') violations | $(echo "$out" | tail -1) | $(( $(date +%s) - start ))s"
-  echo "$out" | grep '^VIOLATION\|violation sig\|inconclusive' | head -5
+  echo "$out" | grep "^VIOLATION\|violation sig\|\] inconclusive:" | head -5
 done
